@@ -31,6 +31,11 @@ func init() {
 				return
 			}
 			n := 0
+			type cand struct {
+				f  *Fn
+				ok bool
+			}
+			var cands []cand
 			for _, f := range p.FnList {
 				if f.Short != "index" || f.Lit != nil || f.Body() == nil || f.Name == "SearchStreams" {
 					continue
@@ -53,7 +58,28 @@ func init() {
 					}
 					return true
 				})
-				if !readsUnc || !searches {
+				if !searches {
+					// … or calls a function of the package that runs the nested search (decideTag)
+					for _, c := range callsInDeep(f.Body()) {
+						if fn := p.Callee(f.Pkg, c); fn != nil {
+							if h := p.FnOfObj(fn); h != nil && h.Short == "index" && h.Lit == nil && h.Body() != nil && h.Name != "SearchStreams" {
+								for _, c2 := range callsInDeep(h.Body()) {
+									if fn2 := p.Callee(h.Pkg, c2); fn2 != nil && fn2.Name() == "SearchStreams" {
+										searches = true
+									}
+								}
+							}
+						}
+					}
+				}
+				hasLoop := false
+				ast.Inspect(f.Body(), func(x ast.Node) bool {
+					if _, ok := x.(*ast.RangeStmt); ok {
+						hasLoop = true
+					}
+					return true
+				})
+				if !readsUnc || !searches || !hasLoop {
 					continue
 				}
 				// … and a condition of the function depends on what was read: taint from ConverterName through
@@ -113,8 +139,22 @@ func init() {
 					return true
 				})
 				readsConv = readsConv && condDepends
+				cands = append(cands, cand{f, readsConv})
+			}
+			// the choice is made in ONE of the functions that decide pending tags (the others are helpers of it: the
+			// nested search extracted into a function of its own); the rule holds when one of them looks at the names
+			anyOK := false
+			for _, c := range cands {
+				if c.ok {
+					anyOK = true
+				}
+			}
+			for _, c := range cands {
+				if anyOK && !c.ok {
+					continue
+				}
 				n++
-				r.Check(readsConv, rule, f.Key()+" chooses the pending tags to decide", p.Pos(f.Node()), "converter names are part of the choice", "pending tags are decided up front only for reasons that do not include the converter their data filters name: a tag on converter output (`data.up:FLAG`) that is pending is inlined next to a filter on the raw data, and the search fails with 'all data conditions must have the same converter name' until the tagging job has caught up")
+				r.Check(c.ok, rule, c.f.Key()+" chooses the pending tags to decide", p.Pos(c.f.Node()), "converter names are part of the choice", "pending tags are decided up front only for reasons that do not include the converter their data filters name: a tag on converter output (`data.up:FLAG`) that is pending is inlined next to a filter on the raw data, and the search fails with 'all data conditions must have the same converter name' until the tagging job has caught up")
 			}
 			r.Floor(rule, 1, n)
 		})
